@@ -229,6 +229,7 @@ def run(ctx):
     if vs is not None:
         raises = [x for x in own_nodes(vs.node) if isinstance(x, ast.Raise)]
         okv = any(any(not isinstance(a, ast.Constant) and pol for a, pol in guards_at(vs, x)) and not any(isinstance(a, ast.Constant) for a, pol in guards_at(vs, x)) for x in raises)
+        okv = okv and not any(isinstance(y, ast.Call) and isinstance(y.func, ast.Name) and y.func.id == "all" for y in own_nodes(vs.node))
         c.ob("R7", okv, vs, "empty-segment-rejected", "a target with an empty segment ('a..b', 'a.') is rejected" if okv else
              "_validate_segments no longer raises for an empty path segment: 'a..b' / 'a.' resolve to something instead of StateNotFoundError", vs.node)
         g_r = cfg_of(rts.node)
@@ -237,6 +238,9 @@ def run(ctx):
             okw = all(g_r.always_before(vcalls, i, follow_exc=False) for i in cfg_node_of(rts, x))
             c.ob("R7", okw, rts, f"validated-before-walk:{norm(x)[:40]}", "the segments are validated before the walk" if okw else
                  f"'{norm(x)}' is reachable without _validate_segments: an empty segment is looked up as a state key", x)
+    # ---- R9 parsing never mutates the config it was handed -----------------------------------------------------------
+    shared.definition_is_read_only(ctx, "R9", ("models", "factory", "resolver"),
+                                   "a second create_machine() from the same config object no longer sees that key: equal configs stop denoting equal machines")
     # ---- R8 id tests in the resolution fallbacks carry the '.' separator (an unresolvable target must not resolve by a character suffix) ----
     shared.dotted_id_tests(ctx, "R8")
     # ---- R5 an unresolvable target is a StateNotFoundError in both engines -------------------------
